@@ -301,7 +301,7 @@ func (l *fakeLightning) ListPeers(ctx context.Context, in *lnrpc.ListPeersReques
 	}
 	var ps []*lnrpc.Peer
 	for _, o := range n.w.Nodes {
-		if o.ID != n.ID && n.w.connectedTo(n.ID, o.ID) {
+		if o.ID != n.ID && n.w.connectedTo(n.ID, o.ID) && !n.ext.disconnected[o.ID] {
 			ps = append(ps, &lnrpc.Peer{PubKey: o.Pubkey})
 		}
 	}
@@ -347,7 +347,11 @@ func (l *fakeLightning) SubscribeCustomMessages(ctx context.Context, in *lnrpc.S
 	n.op("ln.subscribe")
 	q := newLndQueue(n)
 	n.mu.Lock()
-	n.lndInbox = q
+	if n.lndSwapSubscribing || n.lndInbox == nil && !n.ext.psReal {
+		n.lndInbox = q // the swap service's MessageListener
+	} else {
+		n.lndSubs = append(n.lndSubs, q) // further subscribers (peer-sync's own adapter): lnd gives every subscriber every message
+	}
 	n.mu.Unlock()
 	return &customMsgStream{fakeStream{ctx: ctx}, q}, nil
 }
